@@ -33,13 +33,18 @@ type Ctx struct {
 	VirtualNs  int64
 
 	// scheduler / iteration policy hooks owned by the property code
-	yieldFn    func(site int)
-	blockedFn  func()
-	tempSeq    int
-	nowTicks   int64
-	randState  uint64
-	mapOrderFn func(site, n int) []int
-	disk       *SimDisk
+	yieldFn        func(site int)
+	blockedFn      func()
+	sch            *sched   // the C17 scheduler while its concurrent phase runs
+	amb            *sched   // ambient scheduler: exists while goroutines started by the package are alive outside a C17 run
+	goPanics       []string // panics that ended a goroutine started by the package
+	deadlocked     bool     // the scheduler declared a deadlock during the guarded call in progress
+	childStepLimit bool     // such a goroutine hit the step bound or gave up in a declared deadlock
+	tempSeq        int
+	nowTicks       int64
+	randState      uint64
+	mapOrderFn     func(site, n int) []int
+	disk           *SimDisk
 }
 
 type stepLimit struct{}
@@ -123,11 +128,12 @@ func (c *Ctx) KnownHit(key, what string) bool {
 
 var curCtx *Ctx
 
-// When the instrumented package starts goroutines of its own (R6 reports `go` statements) the
-// hooks and simulated endpoints can be entered from several goroutines at once: they are then
-// serialised by one mutex, the cooperative lock/Once/Pool replacements are not installed (the
-// package's goroutines must be able to block for real) and runs are no longer replayable
-// bit for bit - the determinism self-check is skipped and the evidence says so.
+// Goroutines started by the instrumented package are cooperative tasks (verifsim.Go, sched.spawn):
+// one runs at a time and the seeded policy decides who.  Only when the package ALSO blocks in a
+// way the scheduler does not model (select, sync.Cond, timers) do its goroutines have to be real:
+// the hooks and simulated endpoints can then be entered from several goroutines at once, so they
+// are serialised by one mutex, the cooperative replacements are not installed, runs are no longer
+// replayable bit for bit, the determinism self-check is skipped and the evidence says so.
 var lockHooks bool
 var hookMu sync.Mutex
 
@@ -145,7 +151,7 @@ func simLeave() {
 
 func initHookLocking() {
 	loadFacts()
-	lockHooks = facts.GoStmts > 0
+	lockHooks = facts.GoStmts > 0 && len(facts.Unmodelled) > 0
 }
 
 func installHooks(c *Ctx) {
@@ -161,6 +167,23 @@ func installHooks(c *Ctx) {
 			}
 			if c.yieldFn != nil {
 				c.yieldFn(site)
+			}
+		},
+		Go: func(f func()) {
+			s := c.sch
+			if s == nil {
+				if c.amb == nil {
+					c.amb = newAmbient(c)
+				}
+				s = c.amb
+			}
+			s.spawn(f)
+		},
+		Progress: func() {
+			if c.sch != nil {
+				c.sch.progress()
+			} else if c.amb != nil {
+				c.amb.progress()
 			}
 		},
 		Blocked: func() {
@@ -273,7 +296,11 @@ func installHooks(c *Ctx) {
 		},
 	}
 	if lockHooks {
-		verifsim.H.Blocked = nil // real locks, Once and Pool: the package's own goroutines must block for real
+		// real goroutines, locks, Once, Pool, wait groups and channels: the package blocks in ways
+		// the scheduler does not model, so its goroutines must be able to block for real
+		verifsim.H.Blocked = nil
+		verifsim.H.Go = nil
+		verifsim.H.Progress = nil
 	}
 }
 
@@ -367,6 +394,9 @@ func deepCopyValue(v reflect.Value) reflect.Value {
 }
 
 func resetPackageState() {
+	if curCtx != nil {
+		curCtx.killGoroutines() // goroutines of the package that wait for work belong to the state that goes
+	}
 	// sync.* variables are reset too (to their unused, start-of-process value): data
 	// initialised under a sync.Once must not be reset while the Once stays "done"
 	for _, s := range pristine {
@@ -630,4 +660,36 @@ func dcount(d *DSet) int {
 	}
 	n, _ := d.Count()
 	return n
+}
+
+// afterCall is called by every guard when the guarded call has returned or panicked: goroutines the
+// package started run on until each has finished or waits; what went wrong inside them is returned
+// (a panic there would have ended the caller's process; one that never ends is a goroutine that
+// spins or a deadlock).
+func (c *Ctx) afterCall() (panicMsg string, nonterm bool) {
+	if c.amb != nil && c.sch == nil {
+		// one call in four the goroutines are NOT given the turn before the harness goes on (it may
+		// inspect a file, call again ...): a caller cannot know when a goroutine it was not told
+		// about has done its work.  They run during the next call, or when it has returned.
+		c.amb.calls++
+		if splitmix(c.amb.pol.Seed^uint64(c.amb.calls)*0xA24BAED4963EE407)%4 == 0 && !c.childStepLimit {
+			c.Event("goroutines not awaited after call %d", c.amb.calls)
+		} else {
+			c.amb.quiesce()
+		}
+	}
+	if len(c.goPanics) > 0 {
+		panicMsg = c.goPanics[0]
+	}
+	nonterm = c.childStepLimit
+	c.goPanics, c.childStepLimit = nil, false
+	return
+}
+
+// killGoroutines unwinds goroutines of the package that are still parked (end of a case, or the
+// package state they belong to is about to be reset).
+func (c *Ctx) killGoroutines() {
+	if c.amb != nil {
+		c.amb.killAll()
+	}
 }
